@@ -229,6 +229,7 @@ pub enum OpenRes {
 }
 
 pub struct Store {
+    pub snap: Option<raft_log::DumpRaftLog<HT>>,
     pub rl: raft_log::RaftLog<HT>,
     pub acks: Arc<Mutex<Vec<(u64, bool)>>>,
     pub next_cb: u64,
@@ -251,7 +252,7 @@ pub fn open_store(cfg: &[&str], dir: &str) -> OpenRes {
     let config = Arc::new(make_config(cfg, dir));
     let r = catch_unwind(AssertUnwindSafe(|| raft_log::RaftLog::<HT>::open(config)));
     match r {
-        Ok(Ok(rl)) => OpenRes::Ok(Store { rl, acks: Arc::new(Mutex::new(Vec::new())), next_cb: 0 }),
+        Ok(Ok(rl)) => OpenRes::Ok(Store { snap: None, rl, acks: Arc::new(Mutex::new(Vec::new())), next_cb: 0 }),
         Ok(Err(e)) => OpenRes::Err(e.kind()),
         Err(_) => OpenRes::Panic,
     }
@@ -371,6 +372,27 @@ pub fn exec_op(st: &mut Store, dir: &str, t: &[&str]) -> (String, bool) {
                 match catch_unwind(AssertUnwindSafe(|| {
                     let mut d = st.rl.dump_data();
                     d.iter().map(|r| item_str(r)).collect::<Vec<_>>()
+                })) {
+                    Ok(items) => {
+                        let mut v = vec!["read".to_string()];
+                        v.extend(items);
+                        v.join(" ")
+                    }
+                    Err(_) => {
+                        stop = true;
+                        "panic".to_string()
+                    }
+                }
+            }
+            "DS" => {
+                // take a snapshot (dump_data) and keep it for a later iteration
+                st.snap = Some(st.rl.dump_data());
+                "unit".to_string()
+            }
+            "DI" => {
+                match catch_unwind(AssertUnwindSafe(|| match st.snap.as_mut() {
+                    Some(d) => d.iter().map(|r| item_str(r)).collect::<Vec<_>>(),
+                    None => vec![],
                 })) {
                     Ok(items) => {
                         let mut v = vec!["read".to_string()];
